@@ -22,7 +22,9 @@ check in `harness/c04.py`)
   one searched point per theta, in order                          searchRays_spec
   AND: searched points then (0,0), |thetas|+1 rows                and_closure
   OR: (0,y_last),(0,0),(x_first,0) appended                       or_closure, or_contour_spec
-  OR: beyond 1.1*max dropped, never altered                       or_filter_sublist, or_contour_spec,
+  OR: beyond 1.1*max dropped, never altered                       or_filter_sublist, or_contour_spec (any factor),
+                                                                  or_contour_drops_beyond_1_1 (factor pinned to 11/10;
+                                                                  the driver's `orContourF` pins the double 1.1),
                                                                   listMax_spec
 
 Carrier: any linear ordered field.  `cos`/`sin` values of the thetas are inputs (`dirs`),
@@ -457,6 +459,28 @@ theorem or_contour_spec (k : SearchConst α) (ofN : Nat → α) (sample : List (
         exact ⟨mx, my, f, l, listMax_spec _ _ hmx, listMax_spec _ _ hmy, hrs, hf, hl, hcc⟩
   · cases h
 
+
+omit [IsStrictOrderedRing α] in
+/-- **OR: points beyond 1.1 times the sample maximum are dropped, never altered** — `or_contour_spec` with the
+factor of the code pinned to `11/10` (the driver runs `orContourF`, whose factor is the double `1.1`): the
+kept points are a sublist of the searched points, a searched point is kept exactly when both coordinates are
+strictly below `11/10` times the maximum of the sample in that variable, and the contour is the kept points
+followed by the documented closure. -/
+theorem or_contour_drops_beyond_1_1 (k : SearchConst α) (ofN : Nat → α) (sample : List (α × α))
+    (alpha err maxDist : α) (dirs : List (α × α)) (coords : List (α × α)) (rs : List (RayResult α))
+    (h : orContour k ofN sample alpha err maxDist (11 / 10) dirs = .ok (coords, rs)) :
+    ∃ mx my kept f l,
+      (mx ∈ sample.map Prod.fst ∧ ∀ x ∈ sample.map Prod.fst, x ≤ mx) ∧
+      (my ∈ sample.map Prod.snd ∧ ∀ y ∈ sample.map Prod.snd, y ≤ my) ∧
+      kept.Sublist (rs.map fun r => (r.x, r.y)) ∧
+      (∀ p, p ∈ kept ↔ p ∈ (rs.map fun r => (r.x, r.y)) ∧ p.1 < 11 / 10 * mx ∧ p.2 < 11 / 10 * my) ∧
+      kept.head? = some f ∧ kept.getLast? = some l ∧
+      coords = kept ++ [(0, l.2), (0, 0), (f.1, 0)] := by
+  obtain ⟨mx, my, f, l, hmx, hmy, _, hf, hl, hc⟩ :=
+    or_contour_spec k ofN sample alpha err maxDist (11 / 10) dirs coords rs h
+  obtain ⟨hsub, hmem⟩ := or_filter_sublist (11 / 10 * mx) (11 / 10 * my) (rs.map fun r => (r.x, r.y))
+  exact ⟨mx, my, _, f, l, hmx, hmy, hsub, hmem, hf, hl, hc⟩
+
 /-! ### exceedance counts are strict -/
 
 omit [Field α] [IsStrictOrderedRing α] in
@@ -498,6 +522,10 @@ example : orClose [((1 : ℚ), (2 : ℚ)), (3, 4)] = .ok [(1, 2), (3, 4), (0, 4)
   simp [orClose]
 
 example : orKeep (3 : ℚ) 5 [(1, 2), (3, 4), (2, 6), (2, 4)] = [(1, 2), (2, 4)] := by
+  norm_num [orKeep, List.filter]
+
+/-- the pinned factor 11/10 with sample maxima 3 and 5: a coordinate exactly AT 1.1*max is dropped -/
+example : orKeep ((11 : ℚ) / 10 * 3) (11 / 10 * 5) [(1, 2), (33 / 10, 4), (2, 11 / 2), (3, 5)] = [(1, 2), (3, 5)] := by
   norm_num [orKeep, List.filter]
 
 example : kQ.half + kQ.half = 1 ∧ 0 < kQ.s0 ∧ 1 ≤ kQ.maxIter := by norm_num [kQ]
